@@ -340,6 +340,10 @@ func checkC04(c *Check) {
 		c.Anchor("inject.FastInvoker")
 	}
 
+	// ---- R9 every handler goes through the injector
+	c.Rule("R9", "shared with C03 (R3, R4)", "the run loop hands the selected handler to Invoke on every iteration: no direct call of a handler (or of a wrapped function) bypasses the resolution of its parameters from the scopes", 5)
+	c.Share("C03", []string{"R3", "R4"}, 5)
+
 	// ---- R5 Apply
 	c.Rule("R5", "E1 guard-cut", "Apply sets field i only when it is settable, tagged `inject` (tag of the same field i) and a valid value of the field's type was found; an unresolved tagged field returns an error", 2)
 	if ap := p.Meth("inject", "injector", "Apply"); ap != nil {
@@ -517,6 +521,48 @@ func checkC04(c *Check) {
 				}
 			})
 			c.Cond(want["Context"] && want["ResponseWriter"] && want["Request"], key+":request-services", p.FuncPos(nc), "Context, http.ResponseWriter (the wrapper) and *http.Request are mapped on the new request scope", "the per-request services are not all mapped on the request's own scope")
+			// … and nothing else: a service of the application seeded into every request scope shadows a later
+			// registration on the application (own values are consulted before the parent's)
+			nMap := 0
+			allInstrs(nc, func(in ssa.Instruction) {
+				ci, ok := in.(ssa.CallInstruction)
+				if !ok || !ci.Common().IsInvoke() || !onCtxInj(ci.Common().Value) {
+					return
+				}
+				switch ci.Common().Method.Name() {
+				case "Map", "MapTo", "Set":
+					nMap++
+				}
+			})
+			extra := nMap > 3
+			if cc := p.Meth("flamego", "Flame", "createContext"); cc != nil {
+				for _, ci := range callsNamed(cc, "flamego.newContext") {
+					ncv := ci.(*ssa.Call)
+					allInstrs(cc, func(in ssa.Instruction) {
+						x, ok := in.(ssa.CallInstruction)
+						if !ok || x == ssa.CallInstruction(ncv) {
+							return
+						}
+						cm := x.Common()
+						name := ""
+						var on ssa.Value
+						if cm.IsInvoke() {
+							name, on = cm.Method.Name(), cm.Value
+						} else if sc := cm.StaticCallee(); sc != nil && len(cm.Args) > 0 {
+							name, on = sc.Name(), cm.Args[0]
+						}
+						if name != "Map" && name != "MapTo" && name != "Set" {
+							return
+						}
+						if strip(on) == ssa.Value(ncv) {
+							extra = true
+						} else if r, _, ok := fieldPath(on); ok && r != nil && strip(r) == ssa.Value(ncv) {
+							extra = true
+						}
+					})
+				}
+			}
+			c.Cond(!extra, key+":request-services-only", p.FuncPos(nc), "the framework seeds the request scope with these three services only", "the framework maps a further service into every request scope: it shadows whatever the application registers for that type afterwards (later registration no longer replaces it for handlers)")
 		}
 	} else {
 		c.Anchor("flamego.newContext")
